@@ -21,6 +21,9 @@ RTN = z3.RTN()
 RTP = z3.RTP()
 
 
+CURRENT_PATH = [None]      # the path of the running exploration (single-threaded per process)
+
+
 class LazyGen:
     """generator-expression value (iterated lazily like CPython's)"""
 
@@ -534,7 +537,22 @@ def models_str(s):
     return s
 
 
+def _str_encode(interp, s, enc='utf-8', *a):
+    """s.encode('cp437') for a symbolic string of length 1: ASCII characters encode to their code point, the others
+    through an uninterpreted total function (the string is assumed encodable: qbee strings are cp437 text)"""
+    p = interp.path
+    if enc != 'cp437':
+        raise Unsupported(f'str.encode({enc!r}) on a symbolic string')
+    if not p.branch(s.length() == 1):
+        raise Unsupported('str.encode of a symbolic string of length != 1')
+    code = z3.StrToCode(s.term)
+    F = z3.Function('cp437_code', z3.StringSort(), z3.BitVecSort(8))
+    b = z3.If(code < 128, z3.Int2BV(code, 8), F(s.term))
+    return SymByteSeq([b])
+
+
 STR_METHODS = {
+    'encode': _str_encode,
     'format': _str_format,
     'split': _str_split,
     'startswith': _str_startswith,
@@ -1173,10 +1191,24 @@ class SymByteSeq:
     def decode(self, enc='utf-8', *a):
         if all(isinstance(b, int) for b in self.items):
             return bytes(self.items).decode(enc, *a)
+        if enc == 'cp437':
+            # a single-byte code page: each byte decodes to one character, given by an (uninterpreted) total function
+            F = z3.Function('cp437_char', z3.BitVecSort(8), z3.StringSort())
+            out = ''
+            for b in self.items:
+                ch = chr_cp437(b) if isinstance(b, int) else SymStr(F(_bv8(b)))
+                if not isinstance(b, int) and CURRENT_PATH[0] is not None:
+                    CURRENT_PATH[0].assume(ch.length() == 1)
+                out = out + ch if not (isinstance(out, str) and out == '') else ch
+            return out
         raise Unsupported('decode of a byte string with symbolic bytes')
 
     def __repr__(self):
         return f'SymByteSeq({self.items})'
+
+
+def chr_cp437(b):
+    return bytes([b]).decode('cp437')
 
 
 def as_byte_items(o):
